@@ -71,6 +71,9 @@ func (msg MsgCreateClient) ValidateBasic() error {
 	if err != nil {
 		return errorsmod.Wrapf(ibcerrors.ErrInvalidAddress, "string could not be parsed as address: %v", err)
 	}
+	if msg.ClientState == nil || msg.ConsensusState == nil {
+		return errorsmod.Wrap(ibcerrors.ErrUnpackAny, "protobuf Any message cannot be nil")
+	}
 	// validate the total size of client state
 	if len(msg.ClientState.Value) > MaxClientStateSize {
 		return errorsmod.Wrapf(ibcerrors.ErrTooLarge, "client state size %d exceeds max size %d", len(msg.ClientState.Value), MaxClientStateSize)
